@@ -407,7 +407,9 @@ func c10StateAccept(c *Ctx) {
 		return
 	}
 	isLenB := func(v ssa.Value) bool {
-		return hasOrigin(v, func(o string) bool { return strings.HasPrefix(o, "len:call:io/ioutil.ReadAll#0") || strings.HasPrefix(o, "len:call:io.ReadAll#0") })
+		return hasOrigin(v, func(o string) bool {
+			return strings.HasPrefix(o, "len:call:io/ioutil.ReadAll#0") || strings.HasPrefix(o, "len:call:io.ReadAll#0")
+		})
 	}
 	var bad []string
 	okPaths := 0
